@@ -200,7 +200,7 @@ def corpus(tier, seed, profile="release", n=None, per_instance_timeout=60, chunk
     self-contained TracePipe trace (line numbers are local to the chunk)."""
     if instances is None:
         if n is None:
-            n = 160 if tier == "quick" else 1600
+            n = 320 if tier == "quick" else 6000
         d = common.cache_dir(tag, tier, seed, profile, n)
         mp = os.path.join(d, "meta.json")
         if os.path.exists(mp):
@@ -209,6 +209,9 @@ def corpus(tier, seed, profile="release", n=None, per_instance_timeout=60, chunk
             if all(os.path.exists(c) for c in info["chunks"]):
                 return info
         instances = [gen.gen_instance(seed + seed_shift, i) for i in range(n)]
+        if tier == "thorough" and tag == "pipe":
+            # larger instances as well (up to 16 departure segments)
+            instances += [gen.gen_instance(seed + seed_shift + 17, n + i, max_trips=16) for i in range(n // 4)]
         if only_slots:
             instances = [I for I in instances if I["slots"]]
     else:
@@ -235,8 +238,26 @@ def corpus(tier, seed, profile="release", n=None, per_instance_timeout=60, chunk
             "profile": profile, "seed": seed + seed_shift, "tier": tier,
             "tags": {I["name"]: sorted(gen.classify(I)) for I in instances},
             "index": {I["name"]: i for i, I in enumerate(instances)}}
+    ipath = os.path.join(d, "instances.json")
+    with open(ipath, "w") as f:
+        json.dump({I["name"]: I for I in instances}, f)
+    info["inst_path"] = ipath
     with open(mp, "w") as f:
         json.dump(info, f)
     common.log("[corpus] %s tier=%s profile=%s n=%d %.1fs" % (tag, tier, profile, len(instances),
                                                               time.time() - t0))
     return info
+
+
+_inst_cache = {}
+
+
+def instance_of(info, name):
+    """The full abstract instance (incl. rendering fields) of a corpus member."""
+    if "adhoc" in info and name in info["adhoc"]:
+        return info["adhoc"][name]
+    p = info["inst_path"]
+    if p not in _inst_cache:
+        with open(p) as f:
+            _inst_cache[p] = json.load(f)
+    return _inst_cache[p][name]
